@@ -1,6 +1,6 @@
 (* C14 — Optic transformation: well-typed for every diagram; structural characterisation of the optic image of an operation batch (disjoint union of the forward and reverse images glued along the residuals; monoidal on batches); every generator's reverse derivative for ALL inputs; chain rule. PARTIAL: the derivative statement for every circuit (C14Thm.C14_full clause 1-2) is not a theorem — decided on generated circuits by the correspondence check and an independent reverse-mode oracle.
    Property theorems only: each statement is spelled out and closed by [exact] of a lemma proved in Proofs/. *)
-From OHG Require Import Proofs.C14Thm Proofs.C14bThm Proofs.C14cPlain Proofs.C14cBatch Proofs.C14cThm Proofs.HarnessThm Proofs.C14dFunct Proofs.C14dPres Proofs.C14fNormal Proofs.C14eInd Proofs.C14eDeriv.
+From OHG Require Import Proofs.C14Thm Proofs.C14bThm Proofs.C14cPlain Proofs.C14cBatch Proofs.C14cThm Proofs.HarnessThm Proofs.C14dFunct Proofs.C14dPres Proofs.C14fNormal Proofs.C14eInd Proofs.C14eDeriv Proofs.OracleSweep Proofs.OracleGrad.
 
 Theorem C14_type : forall B : Prims.Backend,
        Backend.BackendOK B ->
@@ -545,6 +545,41 @@ Theorem C14_unwrapped_inputs_refuted : denotes s_id1 1 1 (fun x : list BinNums.Z
        ~ derivative_statement s_id1 1 1 (fun x : list BinNums.Z => x) (fun _ : list BinNums.Z => idmat 1).
 Proof. exact (@C14eDeriv.C14_derivative_unwrapped_refuted). Qed.
 
+Theorem C14_oracle_sweep_sound : forall (g : pg) (fw bw : nat -> BinNums.Z) (dy : list BinNums.Z),
+       good_pg g ->
+       fwd_ok g fw ->
+       bwd_ok g fw bw ->
+       List.map bw (Plain.p_outs g) = List.map Dispatch.wrap dy ->
+       SpecCheck.ref_grad g (List.map fw (Plain.p_ins g)) dy =
+       Some (List.map fw (Plain.p_outs g) ++ List.map bw (Plain.p_ins g)).
+Proof. exact (@OracleSweep.ref_grad_sound). Qed.
+
+Theorem C14_oracle_denotes : forall (s : Hyper.ohg nat nat) (n m : nat) (f : list BinNums.Z -> list BinNums.Z)
+         (J : list BinNums.Z -> list (list BinNums.Z)),
+       denotes s n m f J ->
+       forall x dy : list BinNums.Z,
+       length x = n ->
+       length dy = m ->
+       List.Forall C14Thm.in64 x ->
+       List.Forall C14Thm.in64 dy ->
+       SpecCheck.ref_grad (Plain.abs s) x dy = Some (List.map Dispatch.wrap (f x ++ tmulv n (J x) dy)).
+Proof. exact (@OracleGrad.ref_grad_denotes). Qed.
+
+Theorem C14_oracle_agrees_with_model : forall s : Hyper.ohg nat nat,
+       poly_circuit s ->
+       Hyper.ohg_is_monogamous s = Res.Ok true ->
+       Graph.ohg_is_acyclic Prims.VecBackend s = Res.Ok true ->
+       exists d : Hyper.ohg nat nat,
+         poly_adapted_strict s = Res.Ok d /\
+         (forall x dy : list BinNums.Z,
+          length x = length (FinFun.table (Hyper.o_s s)) ->
+          length dy = length (FinFun.table (Hyper.o_t s)) ->
+          List.Forall C14Thm.in64 x ->
+          List.Forall C14Thm.in64 dy ->
+          Graph.eval Prims.VecBackend BinNums.Z0 Dispatch.apply_sig d (x ++ dy) =
+          Res.Ok (SpecCheck.ref_grad (Plain.abs s) x dy)).
+Proof. exact (@OracleGrad.ref_grad_agrees_with_model). Qed.
+
 Print Assumptions C14_type.
 Print Assumptions C14_adapt_type.
 Print Assumptions C14_adapted_type.
@@ -586,3 +621,6 @@ Print Assumptions C14_derivative_all_wrapped.
 Print Assumptions C14_derivative_every_circuit.
 Print Assumptions C14_full_u64.
 Print Assumptions C14_unwrapped_inputs_refuted.
+Print Assumptions C14_oracle_sweep_sound.
+Print Assumptions C14_oracle_denotes.
+Print Assumptions C14_oracle_agrees_with_model.
